@@ -121,7 +121,8 @@ def _counterexample(d, unit, hd):
         return None
     # compile the same generated file with plain rustc: the replay driver
     exe = os.path.join(d, "replay")
-    p = subprocess.run(["rustc", "-O", "--edition", "2021", "-A", "warnings", unit + ".rs", "-o", exe], capture_output=True, text=True, cwd=d, env=ENV)
+    # (overflow checks on, as in the debug build the properties are stated for)
+    p = subprocess.run(["rustc", "-O", "-C", "overflow-checks=on", "--edition", "2021", "-A", "warnings", unit + ".rs", "-o", exe], capture_output=True, text=True, cwd=d, env=ENV)
     if p.returncode:
         return dict(inputs={k: v[0] for k, v in cands[-1][1].items()}, replay_output="replay driver did not compile: %s" % p.stderr[-300:], replayed=False)
     best = None
